@@ -298,7 +298,8 @@ Example C07_roundtrip_hypotheses_satisfiable :
 Proof. exact roundtrip_hypotheses_satisfiable. Qed.
 
 (* The same for a larger expression language [ex]: identifiers, integer / floating / character constants, binary
-   operators, the prefix operators - + ! ~ * & ++ --, postfix ++ --, sizeof(expression), subscripts, member accesses
+   operators, the prefix operators - + ! ~ * & ++ --, postfix ++ --, sizeof(expression), sizeof(type-name) and casts (type-name) e
+   with a type name made of simple type-specifier keywords (`int`, `unsigned long`, ...), subscripts, member accesses
    (. and ->), function calls with any number of arguments, the conditional operator, all (compound) assignments and comma expressions, nested in any way and to any
    depth.  [xt rp e] is the token sequence of the generated text, with operands parenthesised exactly as visit_BinaryOp /
    visit_UnaryOp / visit_ArrayRef / visit_StructRef / visit_FuncCall / visit_TernaryOp / visit_Assignment /
@@ -330,6 +331,14 @@ Example C07_expression_example :
                              K_LPAREN; K_LPAREN; K_ID; K_RPAREN; K_CONDOP; K_LPAREN; K_ID; K_RPAREN; K_COLON; K_LPAREN; K_ID; K_RPAREN; K_RPAREN;
                              K_COMMA; K_ID; K_LPAREN; K_INT_CONST_DEC; K_COMMA; K_LPAREN; K_ID; K_COMMA; K_ID; K_RPAREN; K_RPAREN].
 Proof. exact expression_example. Qed.
+
+(* ... and with casts and sizeof of a type name *)
+Example C07_cast_example :
+  wf ex_c /\\ ids_nb ex_c /\\
+  visit nat false 80 (embC nat ex_c) Z0 = GOk (s2l "((unsigned long) (a + 1)) * (sizeof(int))", Z0) /\\
+  map fst (xt false ex_c) = [K_LPAREN; K_LPAREN; K_UNSIGNED; K_LONG; K_RPAREN; K_LPAREN; K_ID; K_PLUS; K_INT_CONST_DEC; K_RPAREN; K_RPAREN; K_TIMES;
+                             K_LPAREN; K_SIZEOF; K_LPAREN; K_INT; K_RPAREN; K_RPAREN].
+Proof. exact cast_example. Qed.
 
 (* STATEMENTS over that expression language: expression statements, `;`, return / break / continue / goto, labelled statements, if with and
    without else, while, do-while, for with every clause present or absent, and brace-enclosed blocks of statements (the
